@@ -5,9 +5,7 @@ import Vgw.Lemmas.Validate
 namespace Vgw.Lemmas.Validate
 open Vgw Vgw.Go.Strings Vgw.Model.Policy Vgw.Spec.Policy Vgw.Lemmas.Policy
 
-/-! ### the hypotheses of the partial theorem (all decidable) -/
-
-def fieldMembers (f : Field) : List Bytes := (members f).getD []
+/-! ### the hypothesis of the partial theorem (decidable) -/
 
 /-- every iteration order is a rearrangement of the set -/
 def OrdOK (ord : List Bytes → List Bytes) : Prop := ∀ l a, a ∈ ord l ↔ a ∈ l
@@ -16,31 +14,13 @@ def OrdOK (ord : List Bytes → List Bytes) : Prop := ∀ l a, a ∈ ord l ↔ a
 def StmtNoMissing (r : RawStmt) : Prop :=
   r.principal ≠ .missing ∧ r.action ≠ .missing ∧ r.resource ≠ .missing
 
-/-- signature `validate:resource-prefix-of-other-bucket` excluded: a resource that starts with
-`arn:aws:s3:::<bucket>` is `<bucket>` itself or continues with `/` -/
-def StmtNoForeignPrefix (bucket : Bytes) (r : RawStmt) : Prop :=
-  ∀ x ∈ fieldMembers r.resource, (arnPrefix ++ bucket) <+: x → InBucket bucket x
-
-/-- signature `validate:map-order-dependent` excluded: where `s3:*` is listed, the other actions of
-the statement have a resource of their kind anyway -/
-def StmtOrderIndependent (bucket : Bytes) (r : RawStmt) : Prop :=
-  allActions ∈ fieldMembers r.action →
-    ∀ a ∈ fieldMembers r.action, KindOK .lenient bucket (fieldMembers r.resource) a
-
 def DocHyp (P : RawStmt → Prop) : RawDoc → Prop
   | .stmts l => ∀ r ∈ l, P r
   | _ => True
 
 instance (r : RawStmt) : Decidable (StmtNoMissing r) := by unfold StmtNoMissing; infer_instance
-instance (b : Bytes) (r : RawStmt) : Decidable (StmtNoForeignPrefix b r) := by
-  unfold StmtNoForeignPrefix; infer_instance
-instance (b : Bytes) (r : RawStmt) : Decidable (StmtOrderIndependent b r) := by
-  unfold StmtOrderIndependent; infer_instance
 instance (P : RawStmt → Prop) [DecidablePred P] (d : RawDoc) : Decidable (DocHyp P d) := by
   unfold DocHyp; split <;> infer_instance
-
-theorem fieldMembers_of (f : Field) (l : List Bytes) (h : members f = some l) : fieldMembers f = l := by
-  unfold fieldMembers; rw [h]; rfl
 
 /-! ### unfolding the monadic definitions -/
 
@@ -116,18 +96,29 @@ theorem addResource_ok_iff (x p : Bytes) : addResource x = .ok p ↔ isValidReso
   | some q => simp
 
 theorem resources_ok_iff (bucket : Bytes) (pats : List Bytes) :
-    resourcesValidate bucket pats = .ok () ↔ ∀ p ∈ pats, bucket <+: p := by
+    resourcesValidate bucket pats = .ok () ↔
+      ∀ p ∈ pats, p = bucket ∨ (bucket ++ slashLit) <+: p := by
   unfold resourcesValidate
-  by_cases h : (pats.all fun r => hasPrefix r bucket) = true
+  have key : ∀ p : Bytes, (!(decide (p ≠ bucket) && !hasPrefix p (bucket ++ slashLit))) = true ↔
+      (p = bucket ∨ (bucket ++ slashLit) <+: p) := by
+    intro p
+    by_cases e : p = bucket
+    · simp [e]
+    · by_cases hp : hasPrefix p (bucket ++ slashLit) = true
+      · simp [e, hp, (hasPrefix_iff _ _).1 hp]
+      · have hp' : ¬ (bucket ++ slashLit) <+: p := fun h => hp ((hasPrefix_iff _ _).2 h)
+        simp only [Bool.not_eq_true] at hp
+        simp [e, hp, hp']
+  by_cases h : (pats.all fun r => !(decide (r ≠ bucket) && !hasPrefix r (bucket ++ slashLit))) = true
   · rw [if_pos h]
     rw [List.all_eq_true] at h
     simp only [true_iff]
-    intro p hp; exact (hasPrefix_iff _ _).1 (h p hp)
+    intro p hp; exact (key p).1 (h p hp)
   · rw [if_neg h]
     simp only [reduceCtorEq, false_iff]
     intro hall; apply h
     rw [List.all_eq_true]
-    intro p hp; exact (hasPrefix_iff _ _).2 (hall p hp)
+    intro p hp; exact (key p).2 (hall p hp)
 
 /-! ### one statement -/
 
@@ -174,11 +165,12 @@ theorem stmt_accept (ord : List Bytes → List Bytes) (bucket : Bytes) (acct : B
       obtain ⟨a, ha, e⟩ := (hka_mem k).1 hk
       rw [((addAction_ok_iff a k).1 e).2]; exact ha
     -- resources
-    have hpat : ∀ x ∈ rs, ∃ p, isValidResource x = some p ∧ bucket <+: p := by
+    have hpat : ∀ x ∈ rs, ∃ p, isValidResource x = some p ∧
+        (p = bucket ∨ (bucket ++ slashLit) <+: p) := by
       intro x hx
       rcases inBucket_pattern bucket x hs (hR x hx) with ⟨_, h⟩ | ⟨_, k, h⟩
-      · exact ⟨bucket, h, List.prefix_refl _⟩
-      · exact ⟨_, h, List.prefix_append _ _⟩
+      · exact ⟨bucket, h, Or.inl rfl⟩
+      · exact ⟨_, h, Or.inr ⟨k, by simp [slashLit]⟩⟩
     have hne_r : ∀ s, r.resource = .str s → s ≠ [] := by
       intro s e hs0
       rw [e] at hmr
@@ -215,7 +207,7 @@ theorem stmt_accept (ord : List Bytes → List Bytes) (bucket : Bytes) (acct : B
         obtain ⟨x, hx, hv⟩ := (hstored p).1 hp
         obtain ⟨q, hq, hpre⟩ := hpat x hx
         rw [isValidResource_inj x p q hv hq]; exact hpre
-      · apply kindLoop_ok_of
+      · rw [kindLoop_ok_iff]
         intro a ha
         have hmem := hka_mem' a ((hord ka a).1 ha)
         exact step_of_strict bucket rs kr a hs hR hstored (hA a hmem) (hK a hmem)
@@ -230,8 +222,7 @@ theorem stmt_refuse_inv (ord : List Bytes → List Bytes) (bucket : Bytes) (acct
     (hs : Sane bucket) (hord : OrdOK ord) (r : RawStmt) (st : Stmt)
     (hd : decodeStmt r = .ok st)
     (hv : validateStmt bucket acct { st with actions := ord st.actions } = .ok ())
-    (hmiss : StmtNoMissing r) (hpre : StmtNoForeignPrefix bucket r)
-    (hind : StmtOrderIndependent bucket r) : StmtWF .lenient bucket acct r := by
+    (hmiss : StmtNoMissing r) : StmtWF .lenient bucket acct r := by
   obtain ⟨hde, hdp, hda, hdr⟩ := (decodeStmt_ok_iff r st).1 hd
   obtain ⟨hve, hvp, hvr, hvk⟩ := (validateStmt_ok_iff bucket acct _).1 hv
   simp only at hve hvp hvr hvk
@@ -300,23 +291,15 @@ theorem stmt_refuse_inv (ord : List Bytes → List Bytes) (bucket : Bytes) (acct
     obtain ⟨p, hp⟩ := hr_all x hx
     have hvp' := (addResource_ok_iff x p).1 hp
     have hxe := ((isValidResource_some x p).1 hvp').1
-    have hbp := (resources_ok_iff bucket _).1 hvr p ((hstored p).2 ⟨x, hx, hvp'⟩)
-    apply hpre x (by rw [fieldMembers_of _ _ hmr]; exact hx)
-    obtain ⟨t, ht⟩ := hbp
-    exact ⟨t, by rw [hxe, ← ht]; simp⟩
-  -- kinds
+    rcases (resources_ok_iff bucket _).1 hvr p ((hstored p).2 ⟨x, hx, hvp'⟩) with e | ⟨t, ht⟩
+    · left; unfold IsBucketRes; rw [hxe, e]
+    · right; exact ⟨t, by rw [hxe, ← ht]; simp [slashLit]⟩
+  -- kinds: every action was checked (the loop `continue`s at `s3:*`)
   have hK : ∀ a ∈ acts, KindOK .lenient bucket rs a := by
-    by_cases hall : allActions ∈ acts
-    · have := hind (by rw [fieldMembers_of _ _ hma]; exact hall)
-      rw [fieldMembers_of _ _ hma, fieldMembers_of _ _ hmr] at this
-      exact this
-    · intro a ha
-      have hsteps := kindLoop_ok_inv st.resources (ord st.actions) hvk (by
-        intro x hx
-        have hx' := (ha_mem' x).1 ((hord _ x).1 hx)
-        exact actionKind_ne_all x (hvalid x hx') (fun e => hall (e ▸ hx')))
-      have := hsteps a ((hord _ a).2 ((ha_mem' a).2 ha))
-      exact lenient_of_step bucket rs st.resources a hs hR hstored (hvalid a ha) this
+    intro a ha
+    have hsteps := (kindLoop_ok_iff st.resources (ord st.actions)).1 hvk
+    have := hsteps a ((hord _ a).2 ((ha_mem' a).2 ha))
+    exact lenient_of_step bucket rs st.resources a hs hR hstored (hvalid a ha) this
   unfold StmtWF
   refine ⟨heff, ?_⟩
   rw [hmp, hma, hmr]
@@ -344,7 +327,7 @@ theorem stmts_accept (ord : List Bytes → List Bytes) (bucket : Bytes) (acct : 
 theorem stmts_refuse_inv (ord : List Bytes → List Bytes) (bucket : Bytes) (acct : Bytes → Bool)
     (hs : Sane bucket) (hord : OrdOK ord) (l : List RawStmt) (pol : Policy)
     (hd : decodeStmts l = .ok pol) (hv : validatePolicy bucket acct (reorder ord pol) = .ok ())
-    (hyp : ∀ r ∈ l, StmtNoMissing r ∧ StmtNoForeignPrefix bucket r ∧ StmtOrderIndependent bucket r) :
+    (hyp : ∀ r ∈ l, StmtNoMissing r) :
     (∀ r ∈ l, StmtWF .lenient bucket acct r) ∧ pol.length = l.length := by
   induction l generalizing pol with
   | nil =>
@@ -353,8 +336,7 @@ theorem stmts_refuse_inv (ord : List Bytes → List Bytes) (bucket : Bytes) (acc
   | cons r rest ih =>
     obtain ⟨st, sts, hd1, hd2, rfl⟩ := (decodeStmts_cons r rest pol).1 hd
     rw [reorder_cons, validatePolicy_cons] at hv
-    obtain ⟨h1, h2, h3⟩ := hyp r (by simp)
-    have hwf := stmt_refuse_inv ord bucket acct hs hord r st hd1 hv.1 h1 h2 h3
+    have hwf := stmt_refuse_inv ord bucket acct hs hord r st hd1 hv.1 (hyp r (by simp))
     obtain ⟨hrest, hlen⟩ := ih sts hd2 hv.2 (fun x hx => hyp x (by simp [hx]))
     refine ⟨?_, by simp [hlen]⟩
     intro x hx
@@ -398,12 +380,11 @@ theorem doc_accept (ord : List Bytes → List Bytes) (bucket : Bytes) (acct : By
       obtain ⟨pol, hd, hlen, hv⟩ := stmts_accept ord bucket acct hs hacct hord (x :: t) hall
       exact ⟨pol, hd, by rw [hlen]; simp, hv⟩
 
-/-- REFUSE direction (contrapositive): outside the three excluded classes, whatever is accepted —
-in whatever map order — is (leniently) well-formed. -/
+/-- REFUSE direction (contrapositive): outside the excluded class (a statement lacking Principal,
+Action or Resource), whatever is accepted — in whatever map order — is (leniently) well-formed. -/
 theorem doc_accepted_wellformed (ord : List Bytes → List Bytes) (bucket : Bytes)
     (acct : Bytes → Bool) (hs : Sane bucket) (hord : OrdOK ord) (doc : RawDoc)
-    (h1 : DocHyp StmtNoMissing doc) (h2 : DocHyp (StmtNoForeignPrefix bucket) doc)
-    (h3 : DocHyp (StmtOrderIndependent bucket) doc)
+    (h1 : DocHyp StmtNoMissing doc)
     (hok : validateDocument ord bucket acct doc = .ok ()) : WellFormed .lenient bucket acct doc := by
   obtain ⟨pol, hd, hlen, hv⟩ := (validateDocument_ok_iff ord bucket acct doc).1 hok
   cases doc with
@@ -412,7 +393,7 @@ theorem doc_accepted_wellformed (ord : List Bytes → List Bytes) (bucket : Byte
   | stmts l =>
     have hd' : decodeStmts l = .ok pol := hd
     obtain ⟨hall, hl⟩ := stmts_refuse_inv ord bucket acct hs hord l pol hd' hv
-      (fun r hr => ⟨h1 r hr, h2 r hr, h3 r hr⟩)
+      (fun r hr => h1 r hr)
     cases l with
     | nil => exact absurd hl hlen
     | cons x t => exact hall
